@@ -743,6 +743,9 @@ func (r *Relay) disconnected(n network.Network, c network.Conn) {
 	_, ok := r.rsvp[p]
 	if ok {
 		delete(r.rsvp, p)
+		// The conn manager only forgets the peer with its last connection; the peer
+		// may still hold a limited (relayed) one.
+		r.host.ConnManager().UntagPeer(p, "relay-reservation")
 	}
 	r.constraints.cleanupPeer(p)
 	r.mx.Unlock()
